@@ -26,7 +26,7 @@ CASES = {"quick": 1500, "thorough": 80000}
 NAMES = ["alpha", "beta", "gamma", "delta", "project_root"]
 RULE = ("generated (declared subset of 5 names, given kwargs with values int/str/bool/None/list, loader in {model_from_file, "
         "model_from_str, model_from_str+file_name}, provider, global repository on/off, import graph of 1-5 files, an optional "
-        "earlier load with other parameters). non-trivial: >=2 imported files and >=1 parameter given; distinct by canonical JSON")
+        "earlier load with other parameters). non-trivial: >=2 imported files and >=1 parameter given; also: an import that crosses a language border (two registered languages declaring different parameters); distinct by canonical JSON")
 ASSUMPTIONS = [
     "'project_root' is declared by every metamodel (textX adds it); the other names only when the case declares them",
     "with a global repository, models cached by an earlier load keep the parameters of the load that created them",
